@@ -41,6 +41,22 @@ def gen_uint128(tmp):
     for fn in ["sc_uint128_add_inplace", "sc_uint128_sub_inplace", "sc_uint128_bitwise_or_inplace", "sc_uint128_bitwise_and_inplace"]:
         t, i = c2g.translate_function(c2g.find_function(objs, fn), gname=fn + "_aliased", structs=STRUCTS, alias={"b": "a"})
         g.add(t, i)
+    # documented aliasing of the out-of-place functions: "a == result", "b == result", "input == result", "a == b"
+    HL = lambda n: [n + "_high_bits", n + "_low_bits"]
+    for fn, al, suffix, outs in [
+            ("sc_uint128_shift_right", {"result": "input"}, "_inres", HL("input")),
+            ("sc_uint128_shift_left", {"result": "input"}, "_inres", HL("input")),
+            ("sc_uint128_bitwise_neg", {"result": "a"}, "_ares", HL("a")),
+            ("sc_uint128_bitwise_or", {"result": "a"}, "_ares", HL("a")),
+            ("sc_uint128_bitwise_or", {"result": "b"}, "_bres", HL("b")),
+            ("sc_uint128_bitwise_or", {"b": "a", "result": "a"}, "_abres", HL("a")),
+            ("sc_uint128_bitwise_and", {"result": "a"}, "_ares", HL("a")),
+            ("sc_uint128_bitwise_and", {"result": "b"}, "_bres", HL("b")),
+            ("sc_uint128_bitwise_and", {"b": "a", "result": "a"}, "_abres", HL("a")),
+            ("sc_uint128_add", {"b": "a"}, "_ab", None),
+            ("sc_uint128_sub", {"b": "a"}, "_ab", None)]:
+        t, i = c2g.translate_function(c2g.find_function(objs, fn), gname=fn + suffix, structs=STRUCTS, alias=al, outputs=outs)
+        g.add(t, i)
     return g, [f]
 
 
